@@ -196,11 +196,11 @@ impl<'a> Pratt<'a> {
 /// Build a well-formed token sequence from a list of operators by inserting atoms where an operand is needed.
 /// Returns None when the fixities cannot follow each other (prefix directly after an operand, suffix/binary without one).
 pub fn compose(ops: &[&'static OpInfo], atoms: &[(&'static str, &str)]) -> Option<Vec<Tok>> {
-    compose_grouped(ops, atoms, usize::MAX, '(')
+    compose_grouped(ops, atoms, usize::MAX, '(', false)
 }
 
 /// like `compose`, with the `group_at`-th inserted operand wrapped in a group of kind `open`
-pub fn compose_grouped(ops: &[&'static OpInfo], atoms: &[(&'static str, &str)], group_at: usize, open: char) -> Option<Vec<Tok>> {
+pub fn compose_grouped(ops: &[&'static OpInfo], atoms: &[(&'static str, &str)], group_at: usize, open: char, empty: bool) -> Option<Vec<Tok>> {
     let mut toks = vec![];
     let mut have = false;
     let mut next_atom = 0usize;
@@ -208,7 +208,9 @@ pub fn compose_grouped(ops: &[&'static OpInfo], atoms: &[(&'static str, &str)], 
         let (d, t) = atoms[next_atom % atoms.len()];
         if next_atom == group_at {
             toks.push(Tok::Open(open));
-            toks.push(Tok::Atom(d, t.to_string()));
+            if !empty {
+                toks.push(Tok::Atom(d, t.to_string()));
+            }
             toks.push(Tok::Close(if open == '(' { ')' } else { '}' }));
         } else {
             toks.push(Tok::Atom(d, t.to_string()));
